@@ -488,3 +488,53 @@ def fidelity(tier, seed):
     """A-FRONT guard: THDM a_mu functions and getters, interpreter (float mode) vs compiled real code on real models"""
     from gm2v import fidelity as _fid
     return _fid.thdm_model_guard(seed=seed)
+
+# ------------------------------------------------------------------------------------------------
+# "A constructed THDM reproduces the inputs it was constructed from" is stated above for ONE construction.  It carries over to every construction in a
+# process only if no function on the way keeps state between calls, and it starts with the constructors handing the basis to the members: the static-frame
+# obligation of C19 and the constructor contracts of C09 are lemmas of C08 and are re-registered here.
+HISTORY_REPLAY = r'''
+#include "gm2calc/THDM.hpp"
+#include "gm2calc/SM.hpp"
+#include "gm2calc/gm2_error.hpp"
+#include <cstdio>
+#include <cmath>
+// several THDMs with DIFFERENT SM inputs are constructed in one process; each must report its own inputs (W, Z, fermion masses, CKM from Vu Vd^dagger)
+int main() {
+   int bad = 0;
+   for (int k = 0; k < 4; k++) for (int type = 1; type <= 6; type++) {
+      gm2calc::SM sm;
+      if (k == 1) { sm.set_ckm_from_angles(0.3, 0.02, 0.1, 1.0); sm.set_mw(79.0); sm.set_mu(2, 170.0); sm.set_mh(120.0); }
+      if (k == 2) { sm.set_ckm(Eigen::Matrix<std::complex<double>,3,3>::Identity()); sm.set_mz(92.0); sm.set_md(2, 4.5); sm.set_ml(2, 1.8); }
+      if (k == 3) { sm.set_ckm_from_wolfenstein(0.22, 0.8, 0.15, 0.35); sm.set_mh(130.0); }
+      gm2calc::thdm::Mass_basis b; b.yukawa_type = gm2calc::thdm::int_to_cpp_yukawa_type(type);
+      b.mh = sm.get_mh(); b.mH = 400; b.mA = 420; b.mHp = 440; b.sin_beta_minus_alpha = 0.995; b.tan_beta = 3; b.m122 = 40000; b.zeta_u = 0.3; b.zeta_d = -0.2; b.zeta_l = 0.5;
+      try {
+         const gm2calc::THDM th(b, sm);
+         const Eigen::Matrix<std::complex<double>,3,3> ckm = th.get_Vu() * th.get_Vd().adjoint();
+         const double d_ckm = (ckm.cwiseAbs() - sm.get_ckm().cwiseAbs()).cwiseAbs().maxCoeff();   // moduli: invariant under the rephasing freedom of the singular vectors
+         const double d_w = std::fabs(th.get_MVWm() - sm.get_mw()), d_z = std::fabs(th.get_MVZ() - sm.get_mz());
+         double d_f = 0;
+         for (int i = 0; i < 3; i++) d_f = std::fmax(d_f, std::fmax(std::fabs(th.get_MFu()(i) - sm.get_mu()(i)), std::fmax(std::fabs(th.get_MFd()(i) - sm.get_md()(i)), std::fabs(th.get_MFe()(i) - sm.get_ml()(i)))));
+         if (d_ckm > 1e-12 || d_w > 1e-10 || d_z > 1e-10 || d_f > 1e-10) {
+            if (bad++ < 6) std::printf("construction %d (Yukawa type %d): | |CKM| - |input| | = %.3g, |MW - input| = %.3g, |MZ - input| = %.3g, |fermion masses - input| = %.3g\n", k, type, d_ckm, d_w, d_z, d_f);
+         }
+      } catch (const gm2calc::Error& e) { std::printf("exception in construction %d type %d: %s\n", k, type, e.what()); }
+   }
+   std::printf("%d of 24 constructions do not report their own SM inputs\n", bad);
+   return bad ? 1 : 0;
+}
+'''
+
+def history_replay(model, wd):
+    from gm2v import native
+    import subprocess
+    exe = native.build_against_library(wd, HISTORY_REPLAY)
+    r = subprocess.run([exe], capture_output=True, text=True, timeout=300)
+    return r.returncode == 1, r.stdout.strip()[-1500:]
+
+from contracts.shared import reregister as _rr
+from contracts import c19 as _c19, c09 as _c09
+_rr('C08', 'C19', 'C19.no_stateful_local_statics', 'C08.lemma.no_state_between_constructions', replay=history_replay)
+_rr('C08', 'C09', 'C09.constructor.Gauge_basis', 'C08.lemma.constructor.Gauge_basis')
+_rr('C08', 'C09', 'C09.constructor.Mass_basis', 'C08.lemma.constructor.Mass_basis')
